@@ -786,6 +786,14 @@ def units():
     from contracts import c05
     u = [("ids", unit_ids), ("gto/gq", unit_gto("gq")), ("gto/qg", unit_gto("qg")), ("gto-scaling/gq", unit_gto_homogeneity("gq")), ("gto-scaling/qg", unit_gto_homogeneity("qg")), ("other-coefs", unit_other_coefs), ("spline-setup", unit_spline_setup), ("sdmx-l1-rows", unit_sdmx_l1_rows)]
     u.append(("contrib-layout", unit_contrib_layout))
+    # the fast generator returns, for a density, what a fresh generator returns — whatever it was used for before (shared with C09)
+    from contracts import c09
+    for version in ("j", "ij"):
+        u.append(("generator-history/%s" % version, c09.unit_generator_history(version, "MGGA")))
+    # the real spherical harmonics through which every fast path projects and evaluates (value contract against the specification, shared with C06)
+    from contracts import c06
+    for L in (1, 2, 3, 4, 5):
+        u.append(("sph-harm/%d" % L, c06.unit_sph_harm(L)))
     for kind in ("NLDFGaussianPlan", "NLDFSplinePlan"):
         for level in ("MGGA", "GGA"):
             for rm in ("one", "expnt"):
